@@ -63,7 +63,7 @@ _EPS = float(np.finfo(float).eps)
 TOLERANCES = {
     "xsec": "rtol 1e-9 of E_p/(c tau): trapezoid with step 0.5 sigma over +-9 sigma of an entire Gaussian has relative "
             "error 2exp(-2 pi^2/0.25)+erfc(9/sqrt2) < 1e-18 per axis, the rest is summation rounding (<1e-12)",
-    "segments": "|z-mismatch| <= 1e-9 * length (i*segment_length vs running sum, n <= 200 segments); radius rtol 1e-12",
+    "segments": "|z-mismatch| <= 1e-9 * length (i*segment_length vs running sum, n <= 400 segments); radius rtol 1e-12",
     "spectrum.power": "rtol 1e-9 + atol pdf_max*(bins+6)*ulp(max_wavelength) + 8eps: the code accumulates the bin edges "
                       "by repeated addition (<= 1/2 ulp each), an edge shift d changes a bin integral by <= pdf_max*d",
     "spectrum.wavelengths": "atol 1e-9*delta + 8 ulp(max_wavelength)",
